@@ -191,9 +191,20 @@ pub fn check_val(c: &Val) -> Verdict {
         }
     }
     // 4b. the same adapter through serde_json::Value (dynamically typed JSON)
+    // serde_json itself cannot carry every number through a Value: when the f64 nearest to the text has
+    // two shortest decimal forms (an exact tie such as 792281879675064.3 vs .2) it accepts the text
+    // because one formatter reproduces it and then rebuilds the number with the other. A Number that does
+    // not survive Number -> Value -> Number unchanged is outside what the adapters can be asked to preserve.
+    let transport_ok = |val: &serde_json::Value| -> bool {
+        match val.get("v") {
+            Some(inner @ serde_json::Value::Number(n)) => serde_json::from_value::<serde_json::Number>(inner.clone()).map(|n2| same_number_value(&n2.to_string(), &n.to_string())).unwrap_or(false),
+            _ => true,
+        }
+    };
     if within_limit {
         match serde_json::to_value(&WNum { v: x.clone() }) {
             Err(e) => ensure!(v, false, "C17/json_num-to_value-failed", "to_value through json_num failed for {}: {}", m.show(), e),
+            Ok(val) if !transport_ok(&val) => v.labels.push("serde_json-value-transport-lossy"),
             Ok(val) => match serde_json::from_value::<WNum>(val.clone()) {
                 Ok(w) => ensure!(v, dec_of(&w.v).eq_val(&m), "C17/json_num-value-roundtrip", "json_num round trip through serde_json::Value of {} gave {} (document {})", m.show(), dec_of(&w.v).show(), show(&val.to_string())),
                 Err(e) => ensure!(v, false, "C17/json_num-value-roundtrip-failed", "json_num could not read back the Value {}: {}", show(&val.to_string()), e),
@@ -201,6 +212,7 @@ pub fn check_val(c: &Val) -> Verdict {
         }
         match serde_json::to_value(&WOpt { v: Some(x.clone()) }) {
             Err(e) => ensure!(v, false, "C17/json_num_option-to_value-failed", "to_value through json_num_option failed for {}: {}", m.show(), e),
+            Ok(val) if !transport_ok(&val) => {}
             Ok(val) => match serde_json::from_value::<WOpt>(val.clone()) {
                 Ok(w) => ensure!(v, w.v.as_ref().map(|y| dec_of(y).eq_val(&m)) == Some(true), "C17/json_num_option-value-roundtrip", "json_num_option round trip through serde_json::Value of {} gave {:?}", m.show(), w.v.as_ref().map(|y| dec_of(y).show())),
                 Err(e) => ensure!(v, false, "C17/json_num_option-value-roundtrip-failed", "json_num_option could not read back the Value {}: {}", show(&val.to_string()), e),
@@ -223,6 +235,14 @@ pub fn check_val(c: &Val) -> Verdict {
         }
     }
     v
+}
+
+/// do two JSON number texts denote the same value (reference evaluator, exact comparison)?
+fn same_number_value(a: &str, b: &str) -> bool {
+    match (parse_reference(a.as_bytes()), parse_reference(b.as_bytes())) {
+        (Some((ia, sa)), Some((ib, sb))) => Dec::new(ia, sa as i128).eq_val(&Dec::new(ib, sb as i128)),
+        _ => false,
+    }
 }
 
 pub fn check_null() -> Result<(), String> {
@@ -298,7 +318,13 @@ pub fn check_text(c: &JsonText) -> Verdict {
                 }
                 // the same JSON number held in a serde_json::Value
                 if within && t.len() <= 400 {
-                    if let Ok(val) = serde_json::from_str::<serde_json::Value>(t) {
+                    let parsed = serde_json::from_str::<serde_json::Value>(t).ok();
+                    // skip numbers that serde_json itself does not carry through a Value unchanged (see check_val)
+                    let transport_ok = parsed.as_ref().map(|val| serde_json::from_value::<serde_json::Number>(val.clone()).map(|n2| same_number_value(&n2.to_string(), &val.to_string())).unwrap_or(false)).unwrap_or(false);
+                    if !transport_ok && parsed.is_some() {
+                        v.labels.push("serde_json-value-transport-lossy");
+                    }
+                    if let (true, Some(val)) = (transport_ok, parsed) {
                         let wv = Dec::new(w.0.clone(), w.1 as i128);
                         let doc = serde_json::json!({ "v": val.clone() });
                         match serde_json::from_value::<WNum>(doc.clone()) {
